@@ -107,6 +107,15 @@ def run(ctx):
             tid += 1
             total_sets += 1
             traces.append({"tid": tid, "meta": {"kind": "state", "n": n}, "states": [o], "events": evs})
+    # states chosen by execution coverage of the synthesis (fallback branches that random states reach once in thousands)
+    from engine import circuits as cz
+    pool = cz.inv_pool()
+    for rows in pool[:40] if ctx.quick else pool:
+        o, evs = events_for(rows)
+        tid += 1
+        total_sets += 1
+        traces.append({"tid": tid, "meta": {"kind": "state", "n": len(rows), "origin": "coverage-pool"}, "states": [o], "events": evs})
+    ctx.extra["coverage_pool_states"] = len(pool[:40] if ctx.quick else pool)
     ctx.extra["generating_sets_fed"] = total_sets
     # graph leg: all labelled graphs n <= 4 (quick) / n <= 5 (thorough)
     ng = 0
